@@ -189,13 +189,49 @@ CHECKS['C10'] = {
     'technique': 'Hypothesis-generated loss/fault histories on a cluster simulator, bounded-liveness counter per job',
 }
 
+CHECKS['C09'] = {
+    'engine': 'E1-clustersim',
+    'category': 'exploration',
+    'text': ('Generated cluster episodes (stop_sequence at both levels incl. defaults inherited from start_sequence, '
+             'unmanaged applications, prompt / slow / TERM-ignoring / unkillable children, user stop / restart requests and '
+             'supvisors.restart / shutdown on any instance, crashes). Every stop request leaving an instance is checked at '
+             'creation against the emitter view and the true process states (no higher stop_sequence of the application - '
+             'or, in the ending phase, of another application - still active unless given up; target lists the process as '
+             'running); every supervisor.restart / shutdown order is checked (at most one per incarnation, Master Stopper '
+             'idle, nothing still running in the Master view and in truth); on a settled cluster an accepted request must '
+             'reach the Master, and once the Master applied its own order every member that was not crashed must have '
+             'received exactly one and have published FINAL. One root cause (process started after the stop plan) is a '
+             'recorded known finding; five defects were repaired.'),
+    'design_ref': 'DESIGN.md 5/C09',
+    'note': CLUSTER_NOTE,
+    'technique': 'Hypothesis-generated histories on a cluster simulator, per-request ordering oracle against true states',
+}
+
+CHECKS['C03'] = {
+    'engine': 'E1-clustersim',
+    'category': 'exploration',
+    'text': ('Generated cluster episodes (start_sequence 0-3 at both levels, wait_exit, required, the three starting '
+             'failure strategies, startsecs 0-12, behaviours: early exit -> BACKOFF .. FATAL, spawn error, exit after '
+             'RUNNING, request swallowed; crash / restart of instances; triggers: automatic distribution, restart_sequence, '
+             'start / restart / stop_application on any instance). Every start request leaving an instance is checked at '
+             'creation against the requests seen on the wire and the true Supervisor states of the targets: lower positive '
+             'sequences of the application requested by the emitter are resolved (ran / exited for wait_exit / failed / '
+             'given up / target lost), sequence numbers never decrease inside a job, no unresolved request and (in '
+             'DISTRIBUTION, at job begin) no planned job for an application of lower positive sequence, sequence 0 never '
+             'started automatically, nothing of higher sequence requested after a known required failure under ABORT / '
+             'STOP, and under STOP what the job started is stopped. Two defects repaired.'),
+    'design_ref': 'DESIGN.md 5/C03',
+    'note': CLUSTER_NOTE,
+    'technique': 'Hypothesis-generated histories on a cluster simulator, per-request ordering oracle against true states',
+}
+
 HOOK_COMMITS = []
 
 ENGINES = [
     {'name': 'E1-clustersim', 'path': 'clustersim/', 'kind_free_text':
         'deterministic cluster simulator: N real Supvisors instances in one process on a fake OS / network / clock; '
         'Hypothesis generates configuration and history; per-property monitors',
-     'serves_properties': ['C01', 'C02', 'C04', 'C07', 'C08', 'C10', 'C12', 'C14', 'C16']},
+     'serves_properties': ['C01', 'C02', 'C03', 'C04', 'C07', 'C08', 'C09', 'C10', 'C12', 'C14', 'C16']},
     {'name': 'E3-solo', 'path': 'clustersim/solo.py', 'kind_free_text':
         'one real instance with puppet peers / pure component harnesses driven by Hypothesis',
      'serves_properties': ['C11', 'C15', 'C18', 'C20']},
@@ -203,5 +239,5 @@ ENGINES = [
 
 _PENDING = 'check not built yet in this round (the technique applies; see DESIGN.md section 5)'
 NOT_APPLICABLE = {pid: _PENDING for pid in
-                  ['C03', 'C05', 'C06', 'C09', 'C13',
+                  ['C05', 'C06', 'C13',
                    'C17', 'C19']}
